@@ -97,3 +97,100 @@ macro_rules! ml {
 ml!(Rows2 Cols2 Vec2 v2 2, "Rows2", "Cols2");
 ml!(Rows3 Cols3 Vec3 v3 3, "Rows3", "Cols3");
 ml!(Rows4 Cols4 Vec4 v4 4, "Rows4", "Cols4");
+
+/// Inherent matrix functions common to all six matrix types, so scenarios can be generic.
+pub trait MatOps<T>: ML<T> + Copy {
+    /// the same size in the other layout
+    type Other: ML<T> + Copy;
+    fn det(self) -> T;
+    fn transposed_(self) -> Self;
+    fn transpose_(&mut self);
+    fn to_other(self) -> Self::Other;
+}
+macro_rules! matops {
+    ($A:ident $B:ident) => {
+        impl<T: crate::real::Sx> MatOps<T> for $A<T> {
+            type Other = $B<T>;
+            fn det(self) -> T { self.determinant() }
+            fn transposed_(self) -> Self { self.transposed() }
+            fn transpose_(&mut self) { self.transpose() }
+            fn to_other(self) -> $B<T> { $B::from(self) }
+        }
+    };
+}
+matops!(Rows2 Cols2);
+matops!(Cols2 Rows2);
+matops!(Rows3 Cols3);
+matops!(Cols3 Rows3);
+matops!(Rows4 Cols4);
+matops!(Cols4 Rows4);
+
+pub fn sym_mat<T: crate::core::Sc>(p: &str, n: usize) -> Vec<Vec<T>> {
+    (0..n).map(|i| (0..n).map(|j| crate::core::var::<T>(&format!("{}{}{}", p, i, j))).collect()).collect()
+}
+pub fn sym_vec<T: crate::core::Sc>(p: &str, n: usize) -> Vec<T> {
+    (0..n).map(|i| crate::core::var::<T>(&format!("{}{}", p, i))).collect()
+}
+pub fn matmul<T: crate::real::Sx>(a: &[Vec<T>], b: &[Vec<T>]) -> Vec<Vec<T>> {
+    let n = a.len();
+    (0..n).map(|i| (0..n).map(|j| (0..n).fold(crate::core::k::<T>(0), |s, l| s + a[i][l] * b[l][j])).collect()).collect()
+}
+pub fn matvec<T: crate::real::Sx>(a: &[Vec<T>], v: &[T]) -> Vec<T> {
+    let n = a.len();
+    (0..n).map(|i| (0..v.len()).fold(crate::core::k::<T>(0), |s, l| s + a[i][l] * v[l])).collect()
+}
+pub fn ident<T: crate::real::Sx>(n: usize) -> Vec<Vec<T>> {
+    (0..n).map(|i| (0..n).map(|j| crate::core::k::<T>((i == j) as i64)).collect()).collect()
+}
+pub fn transp<T: Copy>(a: &[Vec<T>]) -> Vec<Vec<T>> {
+    transpose(a)
+}
+/// Leibniz expansion: sum over permutations of sign * product
+pub fn leibniz<T: crate::real::Sx>(a: &[Vec<T>]) -> T {
+    let n = a.len();
+    let mut perm: Vec<usize> = (0..n).collect();
+    let mut acc = crate::core::k::<T>(0);
+    // Heap's algorithm is overkill: enumerate all n! by recursion
+    fn rec<T: crate::real::Sx>(a: &[Vec<T>], perm: &mut Vec<usize>, i: usize, acc: &mut T) {
+        let n = a.len();
+        if i == n {
+            let mut inv = 0;
+            for x in 0..n { for y in x + 1..n { if perm[x] > perm[y] { inv += 1; } } }
+            let mut p = crate::core::k::<T>(if inv % 2 == 0 { 1 } else { -1 });
+            for r in 0..n { p = p * a[r][perm[r]]; }
+            *acc = *acc + p;
+            return;
+        }
+        for j in i..n { perm.swap(i, j); rec(a, perm, i + 1, acc); perm.swap(i, j); }
+    }
+    rec(a, &mut perm, 0, &mut acc);
+    acc
+}
+pub fn goals_mat<T: crate::core::Sc>(tag: &str, got: &[Vec<T>], want: &[Vec<T>]) {
+    assert_eq!(got.len(), want.len());
+    for i in 0..got.len() {
+        for j in 0..got[i].len() {
+            crate::core::goal(&format!("{}[{}][{}]", tag, i, j), crate::core::eq(got[i][j], want[i][j]));
+        }
+    }
+}
+pub fn goals_vec<T: crate::core::Sc>(tag: &str, got: &[T], want: &[T]) {
+    assert_eq!(got.len(), want.len());
+    for i in 0..got.len() {
+        crate::core::goal(&format!("{}[{}]", tag, i), crate::core::eq(got[i], want[i]));
+    }
+}
+/// rotation matrix of the non-zero quaternion (x,y,z,w): the harness's own rational parametrisation of SO(3)
+pub fn rot_of_quat<T: crate::real::Sx>(qx: T, qy: T, qz: T, qw: T) -> (Vec<Vec<T>>, T) {
+    let k = crate::core::k::<T>;
+    let n = qx * qx + qy * qy + qz * qz + qw * qw;
+    let two = k(2);
+    (
+        vec![
+            vec![k(1) - two * (qy * qy + qz * qz) / n, two * (qx * qy - qz * qw) / n, two * (qx * qz + qy * qw) / n],
+            vec![two * (qx * qy + qz * qw) / n, k(1) - two * (qx * qx + qz * qz) / n, two * (qy * qz - qx * qw) / n],
+            vec![two * (qx * qz - qy * qw) / n, two * (qy * qz + qx * qw) / n, k(1) - two * (qx * qx + qy * qy) / n],
+        ],
+        n,
+    )
+}
